@@ -49,7 +49,7 @@ def classify(component, what, case):
         if "F8" in (case.get("prior") or []) and flags is not None and not (flags & 1) and \
                 re.search(r"in (ly_err_clean|ly_err_free|ly_err_first|ly_err_last|log_store)\b", case.get("summary", "")):
             return "F8"                                    # the stale record pointer is used again later in the same process
-        if "lyd_new_path_check_find_lypath" in fr and re.search(r"in (lyd_new_path_check_find_lypath|lysc_type_free)\b", case.get("summary", "")):
+        if "lyd_new_path_check_find_lypath" in fr and re.search(r"^data race .*in (lyd_new_path_check_find_lypath|lysc_type_free)\b", case.get("summary", "")):
             return "F51"                                   # non-atomic ++type->refcount on the shared compiled type
         if {"lysc_type_free", "ly_path_predicates_free", "lyd_new_path_"} <= fr and flags is not None and (flags & 32):
             return "F51"                                   # … whose lost update lets lyd_new_path free the type under the other threads
@@ -65,7 +65,7 @@ def classify(component, what, case):
             if "runtime error" in case.get("summary", "") and (fr & {"lyplg_type_print_union", "union_store_type"} or
                                                                 re.search(r"union\.c:\d+:\d+: runtime error: member access within null pointer", case.get("summary", ""))):
                 return "F50"                               # the member value is read while another thread re-stores it (NULL realtype / items)
-        if fr & LAZY_SITES:
+        if fr & LAZY_SITES and case.get("summary", "").startswith("data race"):
             return "F9"                                    # lazy _canonical fill / its freshly published string
         return None
     if kind == "surplus" and flags is not None and not (flags & 2):
@@ -413,11 +413,14 @@ def run_threads(cx, config, budget=None):
     exe = cx.harness("api_threads", config)
     t0 = time.time()
     rng = cx.sub_rng("threads-" + config)
-    for ci, (n, mode, flags, it) in enumerate(thread_configs(cx, config)):
+    cfgs = thread_configs(cx, config)
+    if cx.tier == "thorough":
+        cfgs = cfgs * 3                     # what a run shows depends on timing: repeat with other seeds
+    for ci, (n, mode, flags, it) in enumerate(cfgs):
         if budget is not None and time.time() - t0 > budget:
             cx.notes.append("api_threads/%s: time budget reached after %d configurations" % (config, ci))
             break
-        seed = rng.randrange(0, 5)
+        seed = rng.randrange(0, 5) if ci < 40 else rng.randrange(0, 1000)
         line = "%d conc run %d %d %d %d %d" % (400000 + ci, n, mode, flags, it, seed)
         # F50 and F51 corrupt memory shared by all threads: in those regimes the run stops at the first report (what
         # follows a corrupted heap is arbitrary); everywhere else every report of the run is collected
